@@ -77,7 +77,7 @@ func buildScenarioX(seed int64, small, big bool) *scenario {
 		n = 4 + g.R.Intn(6)
 	}
 	if big {
-		n = 18 + g.R.Intn(10)
+		n = 24 + g.R.Intn(12)
 	}
 	m := model.NewTable()
 	g.Peek = func(k []byte) ([]byte, bool) { v, ok := m.M[string(k)]; return v, ok }
@@ -120,6 +120,9 @@ func buildScenarioX(seed int64, small, big bool) *scenario {
 		switch {
 		case k < 5:
 			c := 1 + g.R.Intn(4)
+			if big && g.R.Intn(3) == 0 {
+				c = 10 + g.R.Intn(5) // one apply call accumulating well over 16 MiB
+			}
 			if c > n-pos {
 				c = n - pos
 			}
